@@ -156,6 +156,11 @@ let dispatch (fn : string) (copy : string) (a : arg list) : out list res =
   | "matrix_pointwise", [m; v] ->
     let p = params_of copy in
     matrix_pointwise_montgomery p (zvec p.pK) (mat (int_of_z p.pL) (getl m)) (vec (getl v)) >>= fun t -> ret [ol (flat t)]
+  | "matrix_pointwise_dirty", [m; v; t0] ->
+    let p = params_of copy in
+    matrix_pointwise_montgomery p (vec (getl t0)) (mat (int_of_z p.pL) (getl m)) (vec (getl v)) >>= fun t -> ret [ol (flat t)]
+  | "l_pointwise_acc_dirty", [u; v; _] ->
+    l_pointwise_acc_montgomery (params_of copy) (vec (getl u)) (vec (getl v)) >>= fun w -> ret [ol w]
   | "l_pointwise_acc", [u; v] ->
     l_pointwise_acc_montgomery (params_of copy) (vec (getl u)) (vec (getl v)) >>= fun w -> ret [ol w]
   | "l_uniform_eta", [seed; nonce] ->
